@@ -27,7 +27,7 @@ func c09Msg(id uint64, size int, squeeze bool) *gen.Msg {
 }
 
 func c09(run *ev.Run) int {
-	run.SetRule("limit cases = N in {2,10,100,1000,65536,131072} (thorough: 13 values from 1 to 1 MiB) x encoded size in {N-1,N,N+1,10N} (exact, proto codec; JSON sampled) x {identity, gzip} x position {first,middle,last} of a 3-message stream (or the single unary message) x 3 protocols x 4 kinds x {handler-side limit, client-side limit}; hostile cases = lying prefixes (2^32-1, 2^31, N+1 declared with 3 bytes present; <=N declared with fewer present), 32 MiB envelopes with reserved flags, 64/256 MiB gzip bombs, each measured alone on one goroutine with runtime.MemStats.TotalAlloc; oracle: delivered <=> encoded size <= N (wire and decompressed; raw<=N<wire is either), failing call has invalid_argument/resource_exhausted, earlier messages delivered and none after, allocation for one message <= 16N + slack; distinct by (N, size class, compression class, position, protocol, kind, side)")
+	run.SetRule("limit cases = N in {2,10,100,1000,65536,131072} (thorough: 13 values from 1 to 1 MiB) x encoded size in {N-1,N,N+1,10N} (exact, proto codec; JSON sampled) x {identity, gzip} x position {first,middle,last} of a 3-message stream (or the single unary message) x 3 protocols x 4 kinds x {handler-side limit, client-side limit}; hostile cases = lying prefixes (2^32-1, 2^31, N+1 declared with 3 bytes present; <=N declared with fewer present), 32 MiB envelopes with reserved flags, 64/256 MiB gzip bombs (as data messages, as compressed Connect end-of-stream messages and gRPC-Web trailer frames, as unary Connect error bodies), each measured alone on one goroutine with runtime.MemStats.TotalAlloc; oracle: delivered <=> encoded size <= N (wire and decompressed; raw<=N<wire is either), failing call has invalid_argument/resource_exhausted, earlier messages delivered and none after, allocation for one message <= 16N + slack; distinct by (N, size class, compression class, position, protocol, kind, side)")
 	Ns := []int{2, 10, 100, 1000, 65536, 131072}
 	if !run.Quick() {
 		Ns = []int{1, 2, 3, 10, 50, 100, 500, 1000, 4096, 65535, 65536, 131072, 1 << 20}
@@ -275,6 +275,10 @@ func c09Hostile(run *ev.Run) {
 		body    func(flags byte) []byte
 		gzip    bool
 		flagged bool
+		// allocOnly: a valid message comes first, so whether the call as a whole
+		// fails depends on the kind (a unary handler never looks at what follows
+		// its message); only the allocation bound is judged.
+		allocOnly bool
 	}
 	frame := func(flags byte, declared uint32, present []byte) []byte {
 		b := []byte{flags, byte(declared >> 24), byte(declared >> 16), byte(declared >> 8), byte(declared)}
@@ -291,6 +295,17 @@ func c09Hostile(run *ev.Run) {
 		{name: "reserved-flag-0x02-32MiB", flagged: true, body: func(byte) []byte { return frame(0x02, 32<<20, big32) }},
 		{name: "reserved-flag-0x80-32MiB", flagged: true, body: func(byte) []byte { return frame(0x80, 32<<20, big32) }},
 		{name: "reserved-flag-0x82-declared-2^31", flagged: true, body: func(byte) []byte { return frame(0x82, 0x80000000, []byte{1, 2, 3}) }},
+		// the slots that are not data messages: a compressed Connect end-of-stream
+		// message and a compressed gRPC-Web trailers frame are buffered like any
+		// other envelope and are held to the same limit
+		{name: "compressed-end-of-stream-0x03-bomb-64MiB", gzip: true, flagged: true, body: func(byte) []byte { return frame(0x03, uint32(len(zeros64)), zeros64) }},
+		{name: "compressed-web-trailers-0x81-bomb-64MiB", gzip: true, flagged: true, body: func(byte) []byte { return frame(0x81, uint32(len(zeros64)), zeros64) }},
+		{name: "message-then-compressed-end-of-stream-bomb", gzip: true, flagged: true, allocOnly: true, body: func(byte) []byte {
+			return append(frame(0, 2, []byte{0x08, 0x01}), frame(0x03, uint32(len(zeros64)), zeros64)...)
+		}},
+		{name: "message-then-compressed-web-trailers-bomb", gzip: true, flagged: true, allocOnly: true, body: func(byte) []byte {
+			return append(frame(0, 2, []byte{0x08, 0x01}), frame(0x81, uint32(len(zeros64)), zeros64)...)
+		}},
 	}
 	for _, protocol := range svc.Protocols {
 		for _, kind := range []svc.Kind{svc.ClientStream, svc.ServerStream, svc.Unary} {
@@ -337,7 +352,7 @@ func c09Hostile(run *ev.Run) {
 						if delta > bound {
 							run.Violation(key+"/allocation", fmt.Sprintf("serving one hostile message allocated %d bytes with a read limit of %d (bound %d)", delta, N, bound), detail)
 						}
-						if d.Err == nil {
+						if d.Err == nil && !hc.allocOnly {
 							run.Violation(key+"/accepted", "hostile oversize/lying message was answered with success", detail)
 						}
 						run.Sample(map[string]any{"side": "handler", "protocol": protocol, "kind": kind.String(), "case": hc.name, "allocated_bytes": delta})
